@@ -114,13 +114,14 @@ HookS ==
                 ELSE Lose(<<p, w>>)
          [] p = "wf.notify.sent" ->
               \* a rendezvous needs a subscriber in its loop
-              IF w = "select" THEN nsent' = nsent + 1 /\ UNCHANGED <<mode, w, lk, envM, reM, srvErr, nrecv>>
+              IF w = "none" THEN Keep   \* before the watcher exists: DeployTransition's own subscription
+              ELSE IF w = "select" THEN nsent' = nsent + 1 /\ UNCHANGED <<mode, w, lk, envM, reM, srvErr, nrecv>>
               ELSE IF w \in {"armed", "exited"} /\ nsent < nrecv
                      THEN nsent' = nsent + 1 /\ UNCHANGED <<mode, w, lk, envM, reM, srvErr, nrecv>>  \* the receiver's hook line came first
                      ELSE Lose(<<p, w>>)
          [] p = "wf.notify.dropped" ->
               \* a subscription exists but the subscriber is not at its select
-              IF w \in {"unsub", "select", "armed", "exited"} THEN Keep ELSE Lose(<<p, w>>)
+              IF w \in {"none", "unsub", "select", "armed", "exited"} THEN Keep ELSE Lose(<<p, w>>)
          [] p = "wf.notify.nosub" ->
               IF w \in {"none", "unsub", "armed", "fired", "stop", "exited"} THEN Keep ELSE Lose(<<p, w>>)
          [] p = "env.watch.recv" ->
@@ -216,10 +217,10 @@ TReply ==
 TFault ==
   /\ Line.ev = "Fault"
   /\ LET H == Hit(Line.kind, Line.class)
-         crit == \E c \in H : CritOf(c)
+         hc == \E c \in H : CritOf(c)
      IN /\ dead' = IF Line.kind = "INTERNAL_ERROR" THEN dead ELSE dead \cup H
-        /\ critSeen' = (critSeen \/ crit)
-        /\ critFault' = (critFault \/ (crit /\ Line.ok /\ Line.kind \in StatementKinds /\ lastSt \in Live))
+        /\ critSeen' = (critSeen \/ hc)
+        /\ critFault' = (critFault \/ (hc /\ Line.ok /\ Line.kind \in StatementKinds /\ lastSt \in Live))
   /\ UNCHANGED <<scn, case, phase, nviol, place, lastSt, expectSt, inflight, gates, started, ended, finalSt>>
   /\ Keep
 
